@@ -22,7 +22,9 @@ def main():
     try:
         notes = {}
         try: notes = json.load(open(os.path.join(src, "notes.json")))
-        except Exception: pass
+        except Exception:
+            try: notes = json.load(open(os.path.join(src, "meta.json")))
+            except Exception: pass
         meta["what_breaks"] = notes.get("what_breaks"); meta["needs_to_manifest"] = notes.get("needs_to_manifest"); meta["files_changed"] = notes.get("files_changed")
         shutil.copytree("/repo", clean, ignore=ign); shutil.copytree("/repo", pat, ignore=ign)
         r = sh(["patch", "-p1", "-s", "-i", os.path.abspath(os.path.join(src, "patch.diff"))], cwd=pat)
@@ -52,7 +54,8 @@ def main():
             print("%s:%s exit=%d %s" % (c, tier, r.returncode, "; ".join(keys[:3])[:300]))
             if r.returncode == 1: meta["detected_by"].append("%s:%s" % (c, tier))
         out = os.path.join("/verif/seeded", sid); os.makedirs(out, exist_ok=True)
-        shutil.copy(os.path.join(src, "patch.diff"), out); shutil.copy(d, out)
+        if os.path.abspath(src) != os.path.abspath(out):
+            shutil.copy(os.path.join(src, "patch.diff"), out); shutil.copy(d, out)
         json.dump(meta, open(os.path.join(out, "meta.json"), "w"), indent=1)
         print("confirmed=%s detected_by=%s" % (meta["confirmed"], meta["detected_by"]))
     finally:
